@@ -279,6 +279,34 @@ func runConc(seed int64, be string, maxG, opsPer int) ([][]byte, map[string]int)
 		progs[0][0] = mk(a, bb)
 		progs[1][0] = mk(bb, a)
 	}
+	// process-wide state behind criteria: every goroutine evaluates Like criteria with patterns nobody has used
+	// before (and a few that everybody uses), through reads and through the selection of bulk writes
+	if g.chance(0.3) {
+		for gi := 0; gi < G; gi++ {
+			for k := range progs[gi] {
+				if !g.chance(0.75) {
+					continue
+				}
+				g.stamp++
+				lit := fmt.Sprintf("%s%d.%d", g.pick([]string{"a", "he", "", "o w"}), seed%100000, g.stamp)
+				if g.chance(0.25) {
+					lit = g.pick([]string{"a", "hello", "b"})
+				}
+				kind := g.pick([]string{"any", "exact", "prefix", "suffix", "contains"})
+				q := []interface{}{[]interface{}{"where", []interface{}{"un", "like", B(g.pick([]string{"s", "xy", "n.b"})), []interface{}{"pat", kind, B(lit)}}}}
+				switch g.r.Intn(6) {
+				case 0:
+					progs[gi][k] = E{"op": "Count", "c": c, "q": q}
+				case 1:
+					progs[gi][k] = E{"op": "Delete", "c": c, "q": q}
+				case 2:
+					progs[gi][k] = E{"op": "Update", "c": c, "q": q, "upd": g.updateMap()}
+				default:
+					progs[gi][k] = E{"op": "FindAll", "c": c, "q": q}
+				}
+			}
+		}
+	}
 	var wg sync.WaitGroup
 	start := make(chan struct{})
 	for gi := 0; gi < G; gi++ {
